@@ -29,11 +29,25 @@ package cmd
 //@   safe
 //@ func ti/cmd.isSuggestForKernelOrObjectClass
 //@   safe
+//@ # ---- C23: what completion never lists ----
+//@ # a signature without a class, a Kernel function, and a private method of a class other than the
+//@ # one the cursor is in are never suggested for a receiver
 //@ func ti/cmd.isSuggest
 //@   safe
+//@   transparent
+//@   ensures[C23] sig.Class == "" || sig.Class == "Kernel" ==> !result
+//@   ensures[C23] sig.IsPrivate && sig.Class != targetT.DefinedClass ==> !result
+//@ # the ancestor walk keeps instance and class methods apart (a class receiver is offered class
+//@ # methods only and the other way round), never offers `new` through an ancestor, follows `extend`
+//@ # edges only for class receivers and `include` edges only for instance receivers; and a class
+//@ # without ancestors answers for nothing but itself
 //@ func ti/cmd.isParentClass
 //@   safe
-//@   terminates
+//@   terminates[C04]
+//@   ensures[C23] sig.IsStatic != isStaticTarget ==> !result
+//@   ensures[C23] sig.Method == "new" ==> !result
+//@   ensures[C23] (isExtend && !isStaticTarget) || (isInclude && isStaticTarget) ==> !result
+//@   ensures[C23] len(old(base.ClassInheritanceMap[mk("ti/base.ClassNode", ite(frame == "" && base.IsBuiltinClass(class), "Builtin", frame), class, false, false)])) == 0 && result ==> sig.Class == class
 //@   witness dec:rec#0 "class A < B\nend\nclass B < A\nend\nx = A.new\nx.\n" args "--suggest --row=6"
 //@ func ti/cmd.PrintSuggestionsForLsp
 //@   safe
